@@ -253,10 +253,20 @@ def bool_atom_desc(body, local, depth=0):
                         return (("field", f[-1], tuple(f)),)
                     return tuple(value_desc(body, o["place"]["local"], depth + 1))
                 out.append(("binop", rv["op"], side(rv["a"]), side(rv["b"]), bb))
-            elif rv["k"] == "ref" or rv["k"] == "cast":
+            elif rv["k"] == "ref":
+                p = rv["place"]
+                f = place_fields(p)
+                if f:
+                    out.append(("field", f[-1], tuple(f), bb))
+                else:
+                    out += bool_atom_desc(body, p["local"], depth + 1)
+            elif rv["k"] == "cast":
                 pass
         elif kind == "call":
-            out.append(call_desc(body, x, bb))
+            if callee_base(x).endswith("ops::Not>::not") and x["args"] and operand_local(x["args"][0]) is not None:
+                out.append(("not", tuple(bool_atom_desc(body, operand_local(x["args"][0]), depth + 1)), bb))
+            else:
+                out.append(call_desc(body, x, bb))
     return out
 
 
@@ -494,7 +504,10 @@ def origins(body, local, depth=0, _seen=None):
     pl = poll_locals(body)
     for kind, x, bb in body.prov.defs.get(local, ()):
         if kind == "call":
-            out.append(("call", callee_base(x), bb, x))
+            if x["callee"] and callee_base(x).endswith("ops::Not>::not") and x["args"] and operand_local(x["args"][0]) is not None:
+                out.append(("not", tuple(origins(body, operand_local(x["args"][0]), depth + 1, _seen))))
+            elif x["callee"]:
+                out.append(("call", callee_base(x), bb, x))
         elif kind == "assign":
             out += rv_origins(body, x["rv"], bb, x, depth, _seen)
     return out
